@@ -29,11 +29,15 @@ def main():
     if want and not os.path.realpath(psutil.__file__).startswith(want):
         print("worker: psutil imported from %s, expected under %s" % (psutil.__file__, want))
         sys.exit(3)
+    # CASE_TIMEOUT is a budget of CPU seconds of this process (ITIMER_VIRTUAL: immune to machine load, catches
+    # non-terminating loops); the wall-clock guard is ten times that (catches blocking hangs).
     signal.signal(signal.SIGALRM, _alarm)
+    signal.signal(signal.SIGVTALRM, _alarm)
     limit = int(getattr(P, "CASE_TIMEOUT", 20))
     with open(outp + "l", "w") as f:
         for it in job["items"]:
-            signal.alarm(limit)
+            signal.alarm(limit * 10)
+            signal.setitimer(signal.ITIMER_VIRTUAL, limit)
             try:
                 r = P.impl_run(it["case"], it["coq"], env)
             except CaseTimeout:
@@ -43,6 +47,7 @@ def main():
                     raise
                 r = {"t": "HarnessError", "a": [traceback.format_exc()[-1500:]]}
             finally:
+                signal.setitimer(signal.ITIMER_VIRTUAL, 0)
                 signal.alarm(0)
             f.write(json.dumps([it["i"], r]) + "\n")
             f.flush()
